@@ -667,6 +667,7 @@ func wfRangeReq(o *ObjectRangeRequest) bool {
 //@ func MergeMetadata
 //@ props C01 C09
 //@ requires           args:   db != nil && meta != nil
+//@ loop 1 invariant   keep:   allstr(k, imp(old(has(meta, k)), has(meta, k) && meta[k] == old(meta[k])))
 //@ ensures [C01]      keep:   allstr(k, imp(old(has(meta, k)), has(meta, k) && meta[k] == old(meta[k])))
 //@ ensures            err:    imp(ret0 != nil, unchanged())
 //@ modifies meta[:]
@@ -727,3 +728,46 @@ func wfRangeReq(o *ObjectRangeRequest) bool {
 //@ func (*GoFakeS3).Server
 //@ props C16 C09
 //@ requires          inv:    g != nil
+
+// ---- listings (C03, C04) ---------------------------------------------------------------
+// Prefix.Match is specified through three uninterpreted functions of (prefix, key);
+// its body (Split/Join/TrimLeft loops) is outside solver reach and is compared with
+// the executable specification specMatch by a bounded exhaustive check instead.
+
+//@ uf mOK(Prefix, string) bool
+//@ uf mCommon(Prefix, string) bool
+//@ uf mPart(Prefix, string) string
+
+//@ func (Prefix).Match
+//@ props C03 C04 C13 C14
+//@ nobody
+//@ ensures [C03]      def:    ok == mOK(p, key)
+//@ ensures [C03]      out:    imp(ok && match != nil, match.Key == key && match.CommonPrefix == mCommon(p, key) && match.MatchedPart == mPart(p, key))
+//@ ensures [C03]      part:   imp(ok && mCommon(p, key), mPart(p, key) != "")
+//@ modifies *match
+
+//@ func NewObjectList
+//@ props C03 C09
+//@ ensures [C03]      empty:  ret0 != nil && fresh(ret0) && len(ret0.Contents) == 0 && len(ret0.CommonPrefixes) == 0 && !ret0.IsTruncated &&
+//@                              ret0.NextMarker == "" && ret0.prefixes == nil
+//@ modifies nothing
+
+//@ func (*ObjectList).Add
+//@ props C03 C09
+//@ requires           b:      b != nil
+//@ ensures [C03]      added:  len(b.Contents) == old(len(b.Contents)) + 1 && b.Contents[len(b.Contents)-1] == item &&
+//@                              all(i, 0, old(len(b.Contents)), b.Contents[i] == old(b.Contents[i]))
+//@ modifies b.Contents
+
+//@ func (*ObjectList).AddPrefix
+//@ props C03 C09
+//@ requires           b:      b != nil
+//@ requires           inv:    imp(b.prefixes != nil, allstr(s, iff(has(b.prefixes, s) && b.prefixes[s], ex(i, 0, len(b.CommonPrefixes), b.CommonPrefixes[i].Prefix == s))))
+//@ requires           inv0:   imp(b.prefixes == nil, len(b.CommonPrefixes) == 0)
+//@ ensures [C03]      dup:    imp(old(ex(i, 0, len(b.CommonPrefixes), b.CommonPrefixes[i].Prefix == prefix)), len(b.CommonPrefixes) == old(len(b.CommonPrefixes)))
+//@ ensures [C03]      new:    imp(!old(ex(i, 0, len(b.CommonPrefixes), b.CommonPrefixes[i].Prefix == prefix)),
+//@                              len(b.CommonPrefixes) == old(len(b.CommonPrefixes)) + 1 && b.CommonPrefixes[len(b.CommonPrefixes)-1].Prefix == prefix)
+//@ ensures [C03]      keep:   all(i, 0, old(len(b.CommonPrefixes)), b.CommonPrefixes[i] == old(b.CommonPrefixes[i]))
+//@ ensures            inv:    b.prefixes != nil && allstr(s, iff(has(b.prefixes, s) && b.prefixes[s], ex(i, 0, len(b.CommonPrefixes), b.CommonPrefixes[i].Prefix == s)))
+//@ ensures            own:    imp(old(b.prefixes) == nil, fresh(b.prefixes)) && imp(old(b.prefixes) != nil, b.prefixes == old(b.prefixes))
+//@ modifies b.prefixes, b.CommonPrefixes, b.prefixes[:]
